@@ -321,24 +321,33 @@ fn c13_boundedness(tier: &str) -> i32 {
             return 2;
         }
     };
-    let pad = "x".repeat(600);
-    db.exec("CREATE TABLE g (k INT, v TEXT)");
+    // small fixed-size rows: growing TEXT updates hit an unrelated B+tree defect (see C10)
+    db.exec("CREATE TABLE g (k INT, v INT)");
     for k in 0..8 {
-        db.exec(&format!("INSERT INTO g VALUES ({k}, '{pad}')"));
+        db.exec(&format!("INSERT INTO g VALUES ({k}, 0)"));
     }
     let mut sizes = vec![];
     for c in 0..n {
         for k in 0..8 {
-            let o = db.exec(&format!("UPDATE g SET v = '{}{}' WHERE k = {k}", &pad[..590], c % 10));
-            if o.is_err() {
-                println!("VIOLATION property=C13 replay=none");
-                println!("  boundedness run: UPDATE failed in cycle {c}: {}", o.show());
-                return 1;
+            for rep in 0..3 {
+                let o = db.exec(&format!("UPDATE g SET v = {} WHERE k = {k}", c * 10 + rep));
+                if o != crate::sqldrv::Out::Count(1) {
+                    println!("VIOLATION property=C13 replay=none");
+                    println!("  boundedness run: UPDATE g SET v = .. WHERE k = {k} in cycle {c}: {}", o.show());
+                    return 1;
+                }
             }
         }
         if let Err(e) = db.vacuum() {
             println!("VIOLATION property=C13 replay=none");
             println!("  boundedness run: VACUUM failed in cycle {c}: {e:?}");
+            return 1;
+        }
+        let o = db.exec("SELECT * FROM g");
+        let expect: Vec<Vec<Val>> = (0..8).map(|k| vec![i(k), i((c * 10 + 2) as i128)]).collect();
+        if !crate::engines::seq::conforms(&Exp::Rows(expect.clone()), &o) {
+            println!("VIOLATION property=C13 replay=none");
+            println!("  boundedness run: contents after cycle {c}: {}", o.show());
             return 1;
         }
         sizes.push(db.file_len());
@@ -348,7 +357,7 @@ fn c13_boundedness(tier: &str) -> i32 {
     eprintln!("[C13] boundedness: file size after cycles {:?}", sizes);
     if last > first {
         println!("VIOLATION property=C13 replay=none");
-        println!("  (update 8 rows; vacuum)^{n}: file keeps growing after the first cycle: {:?}", sizes);
+        println!("  (3 updates of each of 8 rows; vacuum)^{n}: file keeps growing after the first cycle: {:?}", sizes);
         return 1;
     }
     0
